@@ -173,7 +173,16 @@ def classify(d):
     if isinstance(va, tuple) and isinstance(vb, tuple) and va and vb and \
             isinstance(va[0], str) and isinstance(vb[0], str) and \
             va[0] != vb[0]:
-        return 'roundtrip.type-changed.%s-to-%s' % (va[0], vb[0])
+        types = {'bool', 'int', 'float', 'str', 'bytes', 'Char16', 'list',
+                 'dict', 'other', 'CIMDateTime', 'datetime', 'timedelta',
+                 'Uint8', 'Uint16', 'Uint32', 'Uint64', 'Sint8', 'Sint16',
+                 'Sint32', 'Sint64', 'Real32', 'Real64'} | KINDNAMES
+        if va[0] in types and vb[0] in types:
+            return 'roundtrip.type-changed.%s-to-%s' % (va[0], vb[0])
+        # the first items are dictionary keys (names), not type tags
+        if va[0].lower() == vb[0].lower():
+            return 'roundtrip.name.case-changed'
+        return 'roundtrip.name.changed'
     tail = where.rsplit('/', 1)[-1] or where
     return 'roundtrip.diff@%s' % tail
 
